@@ -65,7 +65,7 @@ def neighbor_block(n: dict) -> str:
         out.append('    }')
     api = n.get('api')
     if api:
-        out.append('    api {')
+        out.append(f'    api api-{n["peer_ip"].replace(".", "-").replace(":", "-")} {{')
         out.append(f'        processes [ {" ".join(api["processes"])} ];')
         for opt in api.get('options', []):
             out.append(f'        {opt};')
@@ -147,6 +147,8 @@ def knobs(rng, **over) -> dict:
 
 
 def result(world: World, violations: list[dict], faults: dict | None = None, probes: dict | None = None, nontrivial: bool = True, sample: dict | None = None) -> dict:
+    if world.ended == 'exit' and world.early_exit:
+        raise RuntimeError(f'reactor exited early (code {world.exit_code}) at t={world.loop.mono:.3f}: ' + '; '.join(l[3][:300] for l in world.logs[-3:]))
     if world.ended == 'crash':
         violations = list(violations) + [viol('reactor-crash', 'the reactor main coroutine raised: ' + (world.crash or '')[-1200:], where=(world.crash or '').strip().splitlines()[-1][:200] if world.crash else '')]
     return {
